@@ -164,6 +164,115 @@ Proof.
 Qed.
 
 (* ------------------------------------------------------------------------------------------ *)
+(** * "M": calendar months *)
+
+Lemma midnight_day z y m d : midnight z y m d = day_utc z (days_of_civil y m d) * NS.
+Proof.
+  unfold midnight, go_date, day_utc.
+  replace (days_of_civil y m d * SPD + 0 * 3600 + 0 * 60 + 0) with (days_of_civil y m d * SPD) by lia. lia.
+Qed.
+
+Lemma days_of_civil_day y m d : days_of_civil y m d = days_of_civil y m 1 + (d - 1).
+Proof. unfold days_of_civil. lia. Qed.
+
+(** the first of the next month is after every day of this month *)
+Lemma next_month_first y m dd : valid_date y m dd ->
+  days_of_civil y m dd < (if m =? 12 then days_of_civil (y + 1) 1 1 else days_of_civil y (m + 1) 1).
+Proof.
+  intros [Hm Hd]. unfold days_in_month in Hd.
+  rewrite (days_of_civil_valid y m dd Hm).
+  destruct (Z.eqb_spec m 12) as [-> | N].
+  - rewrite days_of_civil_jan1, dby_step. unfold days_in_year.
+    rewrite days_before_month_13 in Hd. destruct (is_leap y); lia.
+  - rewrite (days_of_civil_valid y (m + 1) 1) by lia. lia.
+Qed.
+
+Lemma month_window z cd ts :
+  String.eqb (cd_suffix cd) "M" = true -> month_window_okb z ts = true ->
+  cd_truncate z cd ts <= ts < cd_ceil z cd ts /\ cd_is_within z cd ts (cd_truncate z cd ts) = true.
+Proof.
+  intros HM H. apply String.eqb_eq in HM.
+  assert (HD : String.eqb (cd_suffix cd) "D" = false) by (rewrite HM; reflexivity).
+  assert (HW : String.eqb (cd_suffix cd) "W" = false) by (rewrite HM; reflexivity).
+  assert (HMt : String.eqb (cd_suffix cd) "M" = true) by (rewrite HM; reflexivity).
+  unfold month_window_okb in H. unfold cd_truncate, cd_ceil, cd_is_within. rewrite HD, HW, HMt.
+  unfold local_civil in *.
+  pose proof (days_of_civil_of_days (local_days z ts)) as V.
+  destruct (civil_of_days (local_days z ts)) as [[y m] dd] eqn:EC. destruct V as [ED VD].
+  apply andb_true_iff in H as [C0 C1]. apply cross_regular in C0, C1.
+  pose proof (next_month_first y m dd VD) as NX.
+  set (D0 := days_of_civil y m 1) in *.
+  set (D1 := if m =? 12 then days_of_civil (y + 1) 1 1 else days_of_civil y (m + 1) 1) in *.
+  assert (ECeil : (if m =? 12 then midnight z (y + 1) 1 1 else midnight z y (m + 1) 1) = day_utc z D1 * NS).
+  { subst D1. destruct (m =? 12); apply midnight_day. }
+  rewrite ECeil, (midnight_day z y m 1). fold D0.
+  pose proof (day_cmp z D0 ts C0) as K0. pose proof (day_cmp z D1 ts C1) as K1.
+  assert (L0 : D0 <= local_days z ts).
+  { rewrite <- ED, (days_of_civil_day y m dd). fold D0. destruct VD as [_ Hdd]. lia. }
+  assert (L1 : local_days z ts < D1) by (rewrite <- ED; exact NX).
+  split; [ lia | ].
+  rewrite (local_days_day_utc z D0 C0).
+  assert (E1 : civil_of_days D0 = (y, m, 1)).
+  { subst D0. apply civil_of_days_of_civil. destruct VD as [Hm Hdd]. split; [ exact Hm | ].
+    pose proof (days_before_month_mono (is_leap y) m Hm) as (_ & _ & B). lia. }
+  rewrite E1, !Z.eqb_refl. reflexivity.
+Qed.
+
+(* ------------------------------------------------------------------------------------------ *)
+(** * "Y": absolute 365-day windows; the timestamp's calendar year is at most [mult] after the start's *)
+
+Lemma dby_add_ge y k : 0 <= k -> dby y + 365 * k <= dby (y + k).
+Proof.
+  revert k. apply (natlike_ind (fun k => dby y + 365 * k <= dby (y + k))).
+  - replace (y + 0) with y by lia. lia.
+  - intros k Hk IH. replace (y + Z.succ k) with (y + k + 1) by lia. rewrite dby_step.
+    pose proof (days_in_year_range (y + k)). lia.
+Qed.
+
+Lemma year_of_days_add d j k : 0 <= k -> j <= 365 * k -> year_of_days (d + j) <= year_of_days d + k.
+Proof.
+  intros Hk Hj. pose proof (year_of_days_spec d) as S. pose proof (year_of_days_spec (d + j)) as S2.
+  destruct (Z_le_gt_dec (year_of_days (d + j)) (year_of_days d + k)) as [L | G]; [ exact L | exfalso ].
+  pose proof (dby_mono_le (year_of_days d + 1 + k) (year_of_days (d + j)) ltac:(lia)) as M.
+  pose proof (dby_add_ge (year_of_days d + 1) k Hk). lia.
+Qed.
+
+Definition year_ns : Z := 31536000000000000.
+
+Lemma year_window z cd ts :
+  String.eqb (cd_suffix cd) "Y" = true -> 1 <= cd_mult cd -> cd_duration cd = cd_mult cd * year_ns ->
+  year_window_okb z cd ts = true ->
+  cd_truncate z cd ts <= ts < cd_ceil z cd ts /\ cd_is_within z cd ts (cd_truncate z cd ts) = true.
+Proof.
+  intros HY Hm Hd H. apply String.eqb_eq in HY.
+  assert (HD : String.eqb (cd_suffix cd) "D" = false) by (rewrite HY; reflexivity).
+  assert (HW : String.eqb (cd_suffix cd) "W" = false) by (rewrite HY; reflexivity).
+  assert (HM : String.eqb (cd_suffix cd) "M" = false) by (rewrite HY; reflexivity).
+  assert (HYt : String.eqb (cd_suffix cd) "Y" = true) by (rewrite HY; reflexivity).
+  assert (Dpos : 0 < cd_duration cd) by (rewrite Hd; unfold year_ns; lia).
+  destruct (abs_window z cd ts HD HM Dpos) as (B & _ & ET).
+  split; [ exact B | ].
+  unfold cd_is_within. rewrite HD, HW, HM, HYt. rewrite ET in *.
+  set (st := time_truncate ts (cd_duration cd)) in *.
+  unfold year_window_okb in H. fold st in H. apply Z.eqb_eq in H.
+  apply Z.leb_le. unfold year_of, local_days, local_secs. rewrite H.
+  set (o := offset_at z (sec_of st)).
+  pose proof (time_truncate_bracket ts _ Dpos) as TB. fold st in TB.
+  (* seconds apart: at most mult * 365 days *)
+  set (K := cd_mult cd * 365).
+  assert (SD : sec_of ts - sec_of st <= K * SPD).
+  { rewrite Hd in TB. unfold sec_of, NS, SPD, year_ns, K in *.
+    assert (E : cd_mult cd * 31536000000000000 = cd_mult cd * 365 * 86400 * 1000000000) by lia.
+    rewrite E in TB. set (KK := cd_mult cd * 365 * 86400) in *.
+    Z.div_mod_to_equations. lia. }
+  assert (DD : (sec_of ts + o) / SPD <= (sec_of st + o) / SPD + K).
+  { unfold SPD in *. Z.div_mod_to_equations. lia. }
+  set (ds := (sec_of st + o) / SPD) in *. set (dt := (sec_of ts + o) / SPD) in *.
+  replace dt with (ds + (dt - ds)) by lia.
+  pose proof (year_of_days_add ds (dt - ds) (cd_mult cd) ltac:(lia) ltac:(unfold K in DD; lia)). lia.
+Qed.
+
+(* ------------------------------------------------------------------------------------------ *)
 (** * The window theorem over the whole guarded domain *)
 
 Theorem window_all z cd ts : wf_cd cd -> window_okb z cd ts = true ->
@@ -189,6 +298,9 @@ Proof.
     { unfold week_window_okb in H. apply andb_true_iff in H as [H _]. apply andb_true_iff in H as [H _].
       apply Z.eqb_eq in H. exact H. }
     apply week_window; [ rewrite <- E; reflexivity | rewrite Hd, M; reflexivity | exact H ].
+  - (* M *) apply month_window; [ rewrite <- E; reflexivity | exact H ].
+  - (* Y *) change (slookup suffixDefs "Y") with year_ns in Hd.
+    apply year_window; [ rewrite <- E; reflexivity | exact M1 | exact Hd | exact H ].
 Qed.
 
 (* ------------------------------------------------------------------------------------------ *)
